@@ -11,6 +11,7 @@ import (
 	"net/http"
 	"net/http/httptest"
 	"os"
+	"reflect"
 	"strings"
 	"testing"
 
@@ -179,4 +180,23 @@ func vfConfigureWebAuthn(t *testing.T, state *RuntimeState) {
 	if err != nil {
 		t.Fatal(err)
 	}
+}
+
+// vfUpgradeCookie calls state.updateAuthCookieAuthlevel whatever its arity: (w, r, level) in trees before the
+// repair that binds the cookie to the authenticated user, (w, r, username, level) since. Going through
+// reflect keeps every harness of this package compiling on both, so that a tree without the repair is
+// judged on its behaviour instead of failing to build.
+func vfUpgradeCookie(state *RuntimeState, w http.ResponseWriter, r *http.Request, user string, level int) (string, error) {
+	f := reflect.ValueOf(state.updateAuthCookieAuthlevel)
+	args := []reflect.Value{reflect.ValueOf(w), reflect.ValueOf(r)}
+	if f.Type().NumIn() == 4 {
+		args = append(args, reflect.ValueOf(user))
+	}
+	args = append(args, reflect.ValueOf(level))
+	out := f.Call(args)
+	var err error
+	if e, ok := out[1].Interface().(error); ok {
+		err = e
+	}
+	return out[0].String(), err
 }
